@@ -419,7 +419,12 @@ fn run_case(out: &mut Out, idx: u64, class: &str, setters: &[Setter], sc_seed: u
     let nt = !setters.is_empty();
     out.case(idx, &format!("{class} nt={} sc={sc_seed} hb={} un={}", nt as u8, with_hb as u8, unchecked as u8));
     if with_build {
-        out.op(&format!("build {}", setters_tok(setters)));
+        // the error kind is also the oracle for the HashMap iteration order of build's topic loop
+        let orc = match &built {
+            Ok(_) => "-".to_string(),
+            Err(e) => format!("{e:?}"),
+        };
+        out.op(&format!("build {} {orc}", setters_tok(setters)));
         match &built {
             Ok(c) => out.imp(&format!("ok {}", getters_tok(c))),
             Err(e) => out.imp(&format!("err {e:?}")),
@@ -517,6 +522,11 @@ fn gen_setters(rng: &mut Rng, all: &[Setter]) -> Vec<Setter> {
                 }
                 if rng.chance(1, 4) {
                     v.push(Setter::MtsT(t, *rng.pick(&MTS_VALUES)));
+                }
+                if rng.chance(1, 8) {
+                    // a topic WITH a size entry whose set is ordered but has 2*out > n, or is fine
+                    v.push(Setter::CfgT(t, *rng.pick(&[[2usize, 2, 3, 2], [3, 3, 3, 2], [5, 3, 7, 3], [4, 2, 4, 2]])));
+                    v.push(Setter::MtsT(t, *rng.pick(&[100usize, 100, 99, 65536])));
                 }
             }
             if rng.chance(1, 3) {
